@@ -4,6 +4,7 @@ import importlib
 import json
 import os
 import re
+import subprocess
 import sys
 import time
 import traceback
@@ -106,6 +107,21 @@ def run_check(prop, tier="quick", replay=None):
         crashed = traceback.format_exc()
         ctx.fail("internal", "checker-crash", "checker crashed, failing closed:\n" + crashed[-3000:])
 
+    if tier == "thorough" and not replay and os.environ.get("VERIF_NO_SELFTEST") != "1":
+        # mutation self-test of this property's rules (stored mutants + seeded defects) on a scratch copy of /repo's current tree.
+        # Evidence only: it never produces a VIOLATION for the tree under test.
+        try:
+            r = subprocess.run([os.path.join(VERIF, "selftest", "mutate.py"), "--prop", prop, "--quiet"], capture_output=True, text=True, timeout=3000)
+            res_file = os.path.join(VERIF, "selftest", "results", prop + ".json")
+            res = json.load(open(res_file)) if os.path.exists(res_file) else []
+            ctx.extra["self_test"] = {"mutants": len(res), "caught": sum(1 for x in res if x["status"].startswith("caught")),
+                                      "missed": [x["id"] for x in res if x["status"] == "MISSED"],
+                                      "skipped_or_invalid": [x["id"] for x in res if not x["status"].startswith("caught") and x["status"] != "MISSED"],
+                                      "results": res}
+            for x in res:
+                ctx.instances.append({"rule": "selftest", "what": "mutant %s: %s by %s" % (x["id"], x["status"], x.get("rules", [])[:3]), "site": "", "verdict": "holds" if x["status"].startswith("caught") else "selftest-" + x["status"]})
+        except Exception as e:
+            ctx.note("self-test could not run: %s" % e)
     known = load_known()
     known_keys = {(k["property"], k["key"]): k for k in known.get("known", [])}
     violations, knowns = [], []
